@@ -132,7 +132,7 @@ CHECKS = {
 # second tie (round 2): the anchored function itself is translated from /repo on every run and proved equal to the model
 TIE = {
     'C01': ('validate_line_column\'s wrapper', 'gen_validate_eq'),
-    'C04': ('_start_match/_fuzzy_match/match and Completion._complete', 'gen_start_match_eq, gen_fuzzy_match_eq, gen_match_eq, gen_complete_eq'),
+    'C04': ('_start_match/_fuzzy_match/match, Completion._complete and get_completion_prefix_length', 'gen_start_match_eq, gen_fuzzy_match_eq, gen_match_eq, gen_complete_eq, gen_prefix_length_eq'),
     'C06': ('the constants EXPRESSION_PARTS/_INLINE_NEEDS_PARENTHESES', 'gen_rule_is_new_rule, gen_expression_parts_is_model, gen_rule_names_are_modelled'),
     'C11': ('CallDetails.calculate_index', 'gen_calculate_index_eq'),
     'C15': ('the four limits of recursion.py', 'gen_limits_are_documented_limits'),
